@@ -39,7 +39,7 @@ from numbers import Number
 import numpy as np
 # from pyparsing import Literal, CaselessLiteral, Word, Combine, Optional, \
 #     ZeroOrMore, Forward, nums, alphas, ParserElement
-from sympy import Expr, Symbol, sympify
+from sympy import Dummy, Expr, Symbol, sympify
 
 # pyrates internal _imports
 from pyrates.backend.computegraph import ComputeGraph, ComputeNode
@@ -837,9 +837,12 @@ def replace_in_expr(expr: Expr, replacements: dict):
     # exact structural replacement of the parsed sub-expressions first: `subs` would also rewrite related terms
     # (replacing 1/k by a symbol P turns every other k into P**(-1), so `sin(k)/k` became `P*sin(P**(-1))` and the
     # call sin(k) was never replaced by its operation node)
-    expr = expr.xreplace(replacements)
-    expr = expr.subs(replacements, simultaneous=True)
+    # a replacement may itself be the key of another one (`k -> k_v1` next to a user variable `k_v1 -> k_v1_v1`): go
+    # through placeholders, so that no pass rewrites what an earlier pass has produced
+    dummies = {arg_old: Dummy() for arg_old in replacements}
+    expr = expr.xreplace(dummies)
+    expr = expr.subs(dummies, simultaneous=True)
     for arg_old in replacements:
         if expr.count(arg_old):
-            expr = expr.replace(arg_old, replacements[arg_old])
-    return expr
+            expr = expr.replace(arg_old, dummies[arg_old])
+    return expr.xreplace({d: replacements[arg_old] for arg_old, d in dummies.items()})
